@@ -314,6 +314,12 @@ def coq_run(vfile_text, name, timeout=900):
         os.unlink(os.path.join(d, "." + name + ".aux"))
     except OSError:
         pass
+    if p.returncode == 0:
+        # the evaluated cases are kept only when the evaluation failed (for diagnosis): they add up to gigabytes
+        try:
+            os.unlink(path)
+        except OSError:
+            pass
     return p.returncode == 0, p.stdout
 
 
